@@ -216,11 +216,20 @@ def rule_blocking(ctx):
     # fresh search / all solve() callers inside the computer
     mec_solve = [b for b in prog.lib_bodies() if b.kind != "closure" and b.impl and b.impl.get("self_adt") == MEC and any(callee_matches(callee_of(s), SOLVE) for s in b.calls())]
     n = 0
-    for sb in mec_solve:
-        for cs in prog.callers_of(sb):
+    work = [(cs, 1) for sb in mec_solve for cs in prog.callers_of(sb)]
+    seen_fw = set()
+    while work:
+        cs, ai = work.pop()
+        if True:
             b = cs.body
+            lits = tags.literals_of(prog, b, cs.node["args"][ai], set())
+            if lits and all(l.role == "PARAM" and re.match(r"^param#\d+$", str(l.note or "")) for l in lits) and b.kind != "closure" and str(b.vis or "").startswith("in:") and b.id not in seen_fw and prog.callers_of(b):
+                # a private method that forwards the assumptions it is given: judged at its own call sites
+                seen_fw.add(b.id)
+                for l in lits:
+                    work.extend((c2, int(l.note.split("#")[1]) - 1) for c2 in prog.callers_of(b))
+                continue
             n += 1
-            lits = tags.literals_of(prog, b, cs.node["args"][1], set())
             from_increase = any(l.role == "UNKNOWN" and "indirect" in str(l.note) for l in lits)
             neg_sel = any(l.role == "SEL" and l.pos is False for l in lits)
             r.check(neg_sel or from_increase, "%s|assumptions" % b.id, "assumptions:%s" % lits, "search assumes the negated selector (%s)" % ("directly" if neg_sel else "through the installed increase function, checked above"), "a search of the maximal-extension computer does not assume the negated selector", cs.loc())
@@ -838,47 +847,84 @@ def rule_state_machine(ctx):
     from ..flow import on_some_arm, on_none_arm
 
     n = 0
+    # private setters of the state field (`fn enter(&mut self, state) { self.state = state }`)
+    setters = {}
+    for b in prog.lib_bodies():
+        if b.kind == "closure" or not b.impl or b.impl.get("self_adt") != MEC or not str(b.vis or "").startswith("in:"):
+            continue
+        for x in b.sites():
+            nd = x.node
+            if x.si is not None and nd["k"] == "assign" and nd["dst"]["p"] and nd["dst"]["l"] == 1 and nd["rv"]["k"] == "use":
+                os_ = origins(b, nd["rv"]["ops"][0], transparent=())
+                if os_ and all(o.kind == "param" and not o.fields and st["path"] in b.local_ty(o.data) for o in os_) and len(list(b.calls())) == 0:
+                    setters[b.id] = os_[0].data
+
+    def _variants(body, op):
+        out = set()
+        for o in origins(body, op, transparent=()):
+            if o.kind == "agg" and o.data.get("path") == st["path"]:
+                out.add(o.data.get("variant"))
+            elif o.kind == "param" and not o.fields and st["path"] in body.local_ty(o.data):
+                out.add(("param", o.data))
+        return out
+
     for b in sorted(prog.lib_bodies(), key=lambda x: x.id):
         if b.kind == "closure" or not b.impl or b.impl.get("self_adt") != MEC:
             continue
         solves = [s for s in b.calls() if prog.body_for_callee(callee_of(s), b) is not None and any(callee_matches(callee_of(x), SOLVE) for x in prog.body_for_callee(callee_of(s), b).calls()) and prog.body_for_callee(callee_of(s), b).impl and prog.body_for_callee(callee_of(s), b).impl.get("self_adt") == MEC]
         for s in solves:
             res = s.node["dst"]["l"]
-            # was it an enlarging search? the assumptions come from an indirect call (the installed function)
-            lits = tags.literals_of(prog, b, s.node["args"][1], set())
-            enlarging = any(l.role == "UNKNOWN" and "indirect" in str(l.note) for l in lits)
-            fresh = any(l.role == "SEL" and l.pos is False for l in lits) and not enlarging
-            if not (enlarging or fresh):
-                continue
-            n += 1
+            lits0 = tags.literals_of(prog, b, s.node["args"][1], set())
+            # the contexts this SAT call is judged in: itself, or (a private helper that is given the assumptions and the fallback state) each of its call sites
+            if lits0 and all(l.role == "PARAM" and re.match(r"^param#\d+$", str(l.note or "")) for l in lits0) and str(b.vis or "").startswith("in:") and prog.callers_of(b):
+                pk = int(lits0[0].note.split("#")[1])
+                ctxs = [(tags.literals_of(prog, cs.body, cs.node["args"][pk - 1], set()), cs) for cs in prog.callers_of(b) if cs.body.impl and cs.body.impl.get("self_adt") == MEC]
+            else:
+                ctxs = [(lits0, None)]
+            stores = []
             for st_site in b.sites():
                 nd = st_site.node
-                if st_site.si is None or nd["k"] != "assign" or not nd["dst"]["p"] or nd["dst"]["l"] != 1:
+                if st_site.si is not None and nd["k"] == "assign" and nd["dst"]["p"] and nd["dst"]["l"] == 1:
+                    if nd["rv"]["k"] == "aggregate" and nd["rv"]["agg"].get("path") == st["path"]:
+                        stores.append((st_site, {nd["rv"]["agg"].get("variant")}))
+                    elif nd["rv"]["k"] == "use":
+                        stores.append((st_site, _variants(b, nd["rv"]["ops"][0])))
+                elif st_site.si is None and nd.get("k") == "call":
+                    t = prog.body_for_callee(callee_of(st_site), b)
+                    if t is not None and t.id in setters and len(nd["args"]) >= setters[t.id]:
+                        stores.append((st_site, _variants(b, nd["args"][setters[t.id] - 1])))
+            for lits, cs in ctxs:
+                # was it an enlarging search? the assumptions come from an indirect call (the installed function)
+                enlarging = any(l.role == "UNKNOWN" and "indirect" in str(l.note) for l in lits)
+                fresh = any(l.role == "SEL" and l.pos is False for l in lits) and not enlarging
+                if not (enlarging or fresh):
                     continue
-                variants = set()
-                if nd["rv"]["k"] == "aggregate" and nd["rv"]["agg"].get("path") == st["path"]:
-                    variants.add(nd["rv"]["agg"].get("variant"))
-                elif nd["rv"]["k"] == "use":
-                    for o in origins(b, nd["rv"]["ops"][0], transparent=()):
-                        if o.kind == "agg" and o.data.get("path") == st["path"]:
-                            variants.add(o.data.get("variant"))
-                if not variants or not b.reaches(s.bb, st_site.bb):
-                    continue
-                some = none = False
-                for c in conditions(b, st_site.bb):
-                    if not c.is_discr:
+                n += 1
+                for st_site, variants0 in stores:
+                    variants = set()
+                    for v in variants0:
+                        if isinstance(v, tuple):
+                            if cs is not None and len(cs.node["args"]) >= v[1]:
+                                variants |= {x for x in _variants(cs.body, cs.node["args"][v[1] - 1]) if not isinstance(x, tuple)}
+                        else:
+                            variants.add(v)
+                    if not variants or not b.reaches(s.bb, st_site.bb):
                         continue
-                    roots, _, _ = data_deps(b, c.place, through_calls=False)
-                    if res in roots or c.place["l"] == res:
-                        some = some or on_some_arm(c)
-                        none = none or on_none_arm(c)
-                anchor = "%s|%s" % (b.id, "enlarge" if enlarging else "fresh")
-                for v in sorted(variants):
-                    if some:
-                        r.check(v == "Intermediate", anchor + "|sat", "state-after-sat:%s" % v, "satisfiable => Intermediate", "after a satisfiable SAT call the computer reports %s: a set that was merely found is taken for %s" % (v, "a maximal one" if v == "Maximal" else v), st_site.loc())
-                    elif none:
-                        want = "Maximal" if enlarging else "None"
-                        r.check(v == want, anchor + "|unsat", "state-after-unsat:%s" % v, "unsatisfiable => %s" % want, "after an unsatisfiable %s the computer reports %s instead of %s" % ("attempt to enlarge the current set" if enlarging else "fresh search", v, want), st_site.loc())
+                    some = none = False
+                    for c in conditions(b, st_site.bb):
+                        if not c.is_discr:
+                            continue
+                        roots, _, _ = data_deps(b, c.place, through_calls=False)
+                        if res in roots or c.place["l"] == res:
+                            some = some or on_some_arm(c)
+                            none = none or on_none_arm(c)
+                    anchor = "%s|%s" % (b.id if cs is None else "%s<-%s" % (b.id, cs.body.id), "enlarge" if enlarging else "fresh")
+                    for v in sorted(variants):
+                        if some:
+                            r.check(v == "Intermediate", anchor + "|sat", "state-after-sat:%s" % v, "satisfiable => Intermediate", "after a satisfiable SAT call the computer reports %s: a set that was merely found is taken for %s" % (v, "a maximal one" if v == "Maximal" else v), st_site.loc())
+                        elif none:
+                            want = "Maximal" if enlarging else "None"
+                            r.check(v == want, anchor + "|unsat", "state-after-unsat:%s" % v, "unsatisfiable => %s" % want, "after an unsatisfiable %s the computer reports %s instead of %s" % ("attempt to enlarge the current set" if enlarging else "fresh search", v, want), st_site.loc())
     r.floor(n, 2, "SAT calls of the maximal-extension computer with a state transition")
     # state stores made without a SAT call (the grounded start, a discarded search): never Maximal, never None
     sat_fns = set()
